@@ -78,7 +78,11 @@ impl Project {
         if !lock_dst.exists() {
             // start from the harness lock file (superset of /repo's)
             let harness_lock = vcore::verif_root().join("harness").join("Cargo.lock");
-            let from = if harness_lock.exists() { harness_lock } else { lock_src.to_path_buf() };
+            let from = if harness_lock.exists() {
+                harness_lock
+            } else {
+                lock_src.to_path_buf()
+            };
             let _ = std::fs::copy(from, &lock_dst);
         }
         std::fs::write(
@@ -103,7 +107,8 @@ impl Project {
             bins[k % nbins].push(c.id);
         }
         for (b, ids) in bins.iter().enumerate() {
-            let mut s = String::from("#![allow(unused)]\n#[path = \"../prelude.rs\"]\nmod prelude;\n");
+            let mut s =
+                String::from("#![allow(unused)]\n#[path = \"../prelude.rs\"]\nmod prelude;\n");
             for id in ids {
                 s.push_str(&format!("#[path = \"../cases/c{id}.rs\"]\nmod c{id};\n"));
             }
@@ -113,7 +118,11 @@ impl Project {
             }
             s.push_str("];\n");
             s.push_str(BIN_MAIN);
-            std::fs::write(src.join("bin").join(format!("{}_b{b}.rs", self.name.to_lowercase())), s)?;
+            std::fs::write(
+                src.join("bin")
+                    .join(format!("{}_b{b}.rs", self.name.to_lowercase())),
+                s,
+            )?;
         }
         Ok(bins)
     }
@@ -142,7 +151,9 @@ impl Project {
         let mut rejected: BTreeMap<usize, String> = BTreeMap::new();
         let mut other_errors = vec![];
         for line in stdout.lines() {
-            let Ok(v) = serde_json::from_str::<serde_json::Value>(line) else { continue };
+            let Ok(v) = serde_json::from_str::<serde_json::Value>(line) else {
+                continue;
+            };
             if v["reason"] != "compiler-message" {
                 continue;
             }
@@ -160,7 +171,10 @@ impl Project {
                     attributed = true;
                 }
             }
-            if !attributed && !text.contains("aborting due to") && !text.contains("could not compile") {
+            if !attributed
+                && !text.contains("aborting due to")
+                && !text.contains("could not compile")
+            {
                 other_errors.push(text);
             }
         }
@@ -169,7 +183,14 @@ impl Project {
             return Err(format!(
                 "cargo failed without attributable errors:\n{}\n{}",
                 other_errors.join("\n"),
-                stderr.chars().rev().take(3000).collect::<String>().chars().rev().collect::<String>()
+                stderr
+                    .chars()
+                    .rev()
+                    .take(3000)
+                    .collect::<String>()
+                    .chars()
+                    .rev()
+                    .collect::<String>()
             ));
         }
         Ok(rejected)
@@ -182,7 +203,9 @@ impl Project {
         let mut rejected_all: BTreeMap<usize, String> = BTreeMap::new();
         let mut bins = vec![];
         for _round in 0..4 {
-            bins = self.write(&remaining, nbins).map_err(|e| format!("cannot write project: {e}"))?;
+            bins = self
+                .write(&remaining, nbins)
+                .map_err(|e| format!("cannot write project: {e}"))?;
             let rejected = self.build(false)?;
             if rejected.is_empty() {
                 break;
@@ -228,7 +251,10 @@ impl Project {
                     if lines.contains_key(&id) {
                         continue;
                     }
-                    let one = Command::new(&exe).arg(id.to_string()).env("RUST_BACKTRACE", "0").output();
+                    let one = Command::new(&exe)
+                        .arg(id.to_string())
+                        .env("RUST_BACKTRACE", "0")
+                        .output();
                     match one {
                         Ok(o) => {
                             let so = String::from_utf8_lossy(&o.stdout);
@@ -244,7 +270,10 @@ impl Project {
                                 }
                             }
                             if !found {
-                                crashed.insert(id, format!("process ended with {} before reporting", o.status));
+                                crashed.insert(
+                                    id,
+                                    format!("process ended with {} before reporting", o.status),
+                                );
                             }
                         }
                         Err(e) => {
@@ -265,13 +294,19 @@ impl Project {
 
     /// `cargo check` verdict per case file: Ok = compiles, Err(diagnostic text).
     /// Used by the compile-fail properties, where the rustc verdict is the observation.
-    pub fn check_each(&self, cases: &[GenCase]) -> Result<BTreeMap<usize, Result<(), String>>, String> {
+    pub fn check_each(
+        &self,
+        cases: &[GenCase],
+    ) -> Result<BTreeMap<usize, Result<(), String>>, String> {
         // one bin per case so that one rejected case does not hide the verdict of another
         let src = self.dir.join("src");
         let _ = std::fs::remove_dir_all(&src);
         std::fs::create_dir_all(src.join("bin")).map_err(|e| e.to_string())?;
         self.write(&[], 1).map_err(|e| e.to_string())?;
-        let _ = std::fs::remove_file(src.join("bin").join(format!("{}_b0.rs", self.name.to_lowercase())));
+        let _ = std::fs::remove_file(
+            src.join("bin")
+                .join(format!("{}_b0.rs", self.name.to_lowercase())),
+        );
         for c in cases {
             std::fs::write(
                 src.join("bin").join(format!("{}_k{}.rs", self.name.to_lowercase(), c.id)),
@@ -283,16 +318,29 @@ impl Project {
             .map_err(|e| e.to_string())?;
         }
         let mut cmd = self.cargo();
-        cmd.args(["check", "--bins", "--offline", "--keep-going", "--message-format=json", "-q"]);
+        cmd.args([
+            "check",
+            "--bins",
+            "--offline",
+            "--keep-going",
+            "--message-format=json",
+            "-q",
+        ]);
         let out = cmd.output().map_err(|e| format!("cannot run cargo: {e}"))?;
         let stdout = String::from_utf8_lossy(&out.stdout);
-        let mut verdicts: BTreeMap<usize, Result<(), String>> = cases.iter().map(|c| (c.id, Ok(()))).collect();
+        let mut verdicts: BTreeMap<usize, Result<(), String>> =
+            cases.iter().map(|c| (c.id, Ok(()))).collect();
         let mut seen_artifacts: BTreeSet<usize> = BTreeSet::new();
         for line in stdout.lines() {
-            let Ok(v) = serde_json::from_str::<serde_json::Value>(line) else { continue };
+            let Ok(v) = serde_json::from_str::<serde_json::Value>(line) else {
+                continue;
+            };
             if v["reason"] == "compiler-artifact" {
                 if let Some(name) = v["target"]["name"].as_str() {
-                    if let Some(id) = name.rsplit_once("_k").and_then(|(_, s)| s.parse::<usize>().ok()) {
+                    if let Some(id) = name
+                        .rsplit_once("_k")
+                        .and_then(|(_, s)| s.parse::<usize>().ok())
+                    {
                         seen_artifacts.insert(id);
                     }
                 }
@@ -301,9 +349,15 @@ impl Project {
                 continue;
             }
             let name = v["target"]["name"].as_str().unwrap_or("");
-            if let Some(id) = name.rsplit_once("_k").and_then(|(_, s)| s.parse::<usize>().ok()) {
+            if let Some(id) = name
+                .rsplit_once("_k")
+                .and_then(|(_, s)| s.parse::<usize>().ok())
+            {
                 let text = v["message"]["rendered"].as_str().unwrap_or("").to_string();
-                let code = v["message"]["code"]["code"].as_str().unwrap_or("").to_string();
+                let code = v["message"]["code"]["code"]
+                    .as_str()
+                    .unwrap_or("")
+                    .to_string();
                 if text.contains("aborting due to") || text.contains("could not compile") {
                     continue;
                 }
@@ -322,7 +376,10 @@ impl Project {
                 return Err(format!(
                     "no verdict for case {} (cargo output incomplete): {}",
                     c.id,
-                    String::from_utf8_lossy(&out.stderr).chars().take(2000).collect::<String>()
+                    String::from_utf8_lossy(&out.stderr)
+                        .chars()
+                        .take(2000)
+                        .collect::<String>()
                 ));
             }
         }
